@@ -34,7 +34,7 @@ var jsonLayouts = []geom.Layout{geom.XY, geom.XYZ, geom.XYZM, geom.XYM, geom.Lay
 
 func genG(t *rapid.T, depth int) *model.G {
 	return gen.Tree(t, gen.TreeOpts{
-		Layouts: jsonLayouts, Floats: gen.Finite, MaxDepth: depth, MaxParts: 3, MaxPts: 4, MixLayouts: true, PEmpty: 15,
+		Layouts: jsonLayouts, Floats: gen.Finite, MaxDepth: depth, MaxParts: 3, MaxPts: 4, MixLayouts: true, PEmpty: 15, LongPct: 1, LongMax: 200,
 	})
 }
 
